@@ -8,3 +8,4 @@ pairs, tied to the code by the registry harness (go/cmd/harness/c06.go, codec_*.
 import Dblib.Props.C07.Basic
 import Dblib.Props.C07.Cursor
 import Dblib.Props.C07.Lookup
+import Dblib.Props.C07.Fields
